@@ -24,6 +24,7 @@ type DistGenCfg struct {
 	IDCollisions     bool // INTERNAL ids equal to module account names / bech32 addresses
 	SelfAsModule     bool // name the distributor's own account as a MODULE_ACCOUNT
 	AllowBurn        bool
+	NoVRCSource      bool // never sweep validators_rewards_collector (x/distribution empties it every block: a competing consumer)
 }
 
 // module accounts the generator may name (never the staking pools, distribution, cfeminter, cfevesting: legal,
@@ -123,6 +124,9 @@ func genDistOnce(r *kernel.Rng, cfg DistGenCfg) (disttypes.Params, bool) {
 				key = disttypes.Main
 			}
 			if used[key] {
+				continue
+			}
+			if srcRole && cfg.NoVRCSource && a.Id == disttypes.ValidatorsRewardsCollector {
 				continue
 			}
 			used[key] = true
@@ -314,3 +318,64 @@ func distShape(p disttypes.Params) string {
 	}
 	return s
 }
+
+// distFlowDepth analyses the account graph (an edge from every source of a sub-distributor to each of its
+// destinations): whether coins can circulate forever, and the longest chain of hops otherwise.
+func distFlowDepth(p disttypes.Params) (depth int, cyclic bool) {
+	key := func(a disttypes.Account) string {
+		if a.Type == disttypes.Main {
+			return "MAIN"
+		}
+		return a.Type + "-" + a.Id
+	}
+	adj := map[string]map[string]bool{}
+	nodes := map[string]bool{}
+	for _, sd := range p.SubDistributors {
+		var dsts []string
+		dsts = append(dsts, key(sd.Destinations.PrimaryShare))
+		for _, sh := range sd.Destinations.Shares {
+			dsts = append(dsts, key(sh.Destination))
+		}
+		for _, s := range sd.Sources {
+			sk := key(*s)
+			nodes[sk] = true
+			if adj[sk] == nil {
+				adj[sk] = map[string]bool{}
+			}
+			for _, d := range dsts {
+				nodes[d] = true
+				adj[sk][d] = true
+			}
+		}
+	}
+	state := map[string]int{} // 0 unseen, 1 on stack, 2 done
+	memo := map[string]int{}
+	var dfs func(n string) int
+	dfs = func(n string) int {
+		if state[n] == 1 {
+			cyclic = true
+			return 0
+		}
+		if state[n] == 2 {
+			return memo[n]
+		}
+		state[n] = 1
+		best := 0
+		for _, m := range kernel.SortedKeys(boolMapToIface(adj[n])) {
+			if d := dfs(m) + 1; d > best {
+				best = d
+			}
+		}
+		state[n] = 2
+		memo[n] = best
+		return best
+	}
+	for _, n := range kernel.SortedKeys(boolMapToIface(nodes)) {
+		if d := dfs(n); d > depth {
+			depth = d
+		}
+	}
+	return
+}
+
+func boolMapToIface(m map[string]bool) map[string]bool { return m }
